@@ -22,6 +22,7 @@ func checkC13(c *Ctx) {
 	c.Rule("C13/R3", "benchmath.Sample is constructed only by NewSample, which sorts the slice it stores; stats.Sample{Sorted:true} is built only from Sample.Values")
 	c.Rule("C13/R4", "process-wide memo tables are keyed by every input of the memoised call, verbatim")
 	c.Rule("C13/R5", "rendering tables (DESIGN Appendix A4): FormatDelta — P>Alpha '~', equal '0.00%', old=0 '?', else (new/old-1)*100 with %+.2f%%; PctRangeString — infinite end '∞', sign mismatch '?', zero centre '0%', else the larger relative deviation of the interval ends from the centre, in percent")
+	c.Rule("C13/R9", "the p-value is the test's: every P a Compare method of benchmath stores is the P field of the result of the test it calls, or the constant 1 where that test's error is known non-nil")
 	c.Rule("C13/R8", "the configured significance level reaches the test: NewSample stores the thresholds pointer it was handed, verbatim, on every path")
 	c.Rule("C13/R7", "scale invariance by dimensions: on the way from every Assumption.Compare (benchmath; the tests themselves live in the external go-moremath module) no quantity that carries the unit of the measurements (a value, mean, deviation, variance, quantile, or a product/quotient of them that does not cancel) is compared with a non-zero constant")
 	c.Rule("C13/R6", "summary wiring: the assume-nothing summary uses the median interval for (len(values), requested confidence) and reports the interval's own confidence; the normal summary reports the mean interval at the requested confidence; the exact summary's bounds are the first and last sorted values and it warns exactly when the mode count differs from the sample size")
@@ -35,6 +36,7 @@ func checkC13(c *Ctx) {
 	c13Summary(c, p)
 	c13Scale(c, p)
 	c13Thresholds(c, p, "C13/R8")
+	c13PFromTest(c, p)
 	if c.Tier == "thorough" {
 		p2 := mustLoad(c, loadOpts{}, "./...")
 		var rels []string
@@ -718,6 +720,22 @@ func c13Summary(c *Ctx, p *Prog) {
 				}
 			}
 		})
+		// "the same value" is ==: on the way from the exact summary no two measurements are compared by an ordered
+		// float comparison (a tolerance, however small, merges distinct exact counts and hides the range warning)
+		var tol []string
+		for _, g := range staticReach([]*ssa.Function{fn}, bmathPkg) {
+			eachInstr(g, func(_ *ssa.BasicBlock, in ssa.Instruction) {
+				bo, ok := in.(*ssa.BinOp)
+				if !ok || !isFloat(bo.X.Type()) {
+					return
+				}
+				switch bo.Op {
+				case token.LSS, token.LEQ, token.GTR, token.GEQ:
+					tol = append(tol, p.pos(bo.Pos()))
+				}
+			})
+		}
+		c.Check(len(tol) == 0, R, "assumeExact.Summary:equality-is-exact", site, "values are compared by == only", fmt.Sprintf("the exact model compares measurements with an ordered float comparison (%s): values that differ are then counted as one (a tolerance), so the most frequent value and the 'exact distribution expected' warning are wrong for large counts that differ by a few units", strings.Join(tol, ", ")))
 		c.Check(okW, R, "assumeExact.Summary:warning", site, "warns exactly when the mode count differs from the sample size", "the range warning is not guarded by (mode count != number of values)")
 	}
 }
@@ -963,4 +981,70 @@ func c13Thresholds(c *Ctx, p *Prog, R string) {
 			"the thresholds stored in the sample are not, on every path, the ones the caller passed: with -alpha 0 (a legal setting under which no difference is significant) the comparison is then made at a default level, deltas are shown where '~' belongs and the 'alpha level 0' warnings disappear")
 	}
 	c.Floor(R, "stores of the sample's thresholds", n, 1)
+}
+
+// c13PFromTest (C13/R9): a comparison's p-value is the hypothesis test's: in every Compare method of benchmath the P
+// stored into the returned Comparison is the P field of the result of the test that method calls, or the constant 1 on
+// the path where that test reported an error. A p-value taken from anywhere else (a table, a bound) is a different test.
+func c13PFromTest(c *Ctx, p *Prog) {
+	const R = "C13/R9"
+	pF := p.Field("benchmath", "Comparison", "P")
+	if pF == nil {
+		c.Undecided(R, "anchor:Comparison.P", "", "not found")
+		return
+	}
+	n := 0
+	for _, fn := range p.Funcs("benchmath") {
+		if fn.Name() != "Compare" || fn.Signature.Recv() == nil {
+			continue
+		}
+		// the test: a call into a statistics package returning (result, error)
+		var test *ssa.Call
+		eachInstr(fn, func(_ *ssa.BasicBlock, in ssa.Instruction) {
+			if call, ok := in.(*ssa.Call); ok {
+				if co := calleeObj(&call.Call); co != nil && co.Pkg() != nil && strings.HasSuffix(co.Pkg().Path(), "/stats") && strings.HasSuffix(co.Name(), "Test") {
+					test = call
+				}
+			}
+		})
+		if test == nil {
+			continue // the exact model compares nothing
+		}
+		for _, st := range storesToField(fn, pF) {
+			n++
+			key := fmt.Sprintf("%s:P#%d", fnName(fn), n)
+			ok := false
+			detail := ""
+			if k, isK := st.Val.(*ssa.Const); isK && k.Value != nil {
+				// the error path: P = 1 where the test's error is known non-nil
+				one := constant.Compare(k.Value, token.EQL, constant.MakeInt64(1))
+				onErr := false
+				for _, f := range factsAt(st.Block()) {
+					if bo, isBo := f.Cond.(*ssa.BinOp); isBo && ((bo.Op == token.NEQ && f.True) || (bo.Op == token.EQL && !f.True)) {
+						if ex, isEx := bo.X.(*ssa.Extract); isEx && ex.Tuple == ssa.Value(test) {
+							onErr = true
+						}
+					}
+				}
+				ok = one && onErr
+				detail = "a constant p-value outside the test's error path"
+			} else if f, base := loadOfField(st.Val); f != nil && f.Name() == "P" {
+				// res.P with res the test's result (a pointer or value extracted from the call)
+				if ex, isEx := stripConv(base).(*ssa.Extract); isEx && ex.Tuple == ssa.Value(test) {
+					ok = true
+				}
+				if la := loadAddr(base); la != nil {
+					if ex, isEx := la.(*ssa.Extract); isEx && ex.Tuple == ssa.Value(test) {
+						ok = true
+					}
+				}
+				detail = "a P field of something that is not this test's result"
+			} else {
+				detail = "a value that is not a field of the test's result"
+			}
+			c.Check(ok, R, key, p.pos(st.Pos()), "the comparison's P is the test's P (or 1 on the test's error)",
+				"the comparison's p-value is "+detail+": a shortcut for 'obviously different' samples has to reproduce the test exactly — the smallest attainable p depends on both sample sizes, so a table indexed by one of them reports 0.1 where the test gives 0.036, and a different value again when the arguments are swapped")
+		}
+	}
+	c.Floor(R, "p-values stored by the Compare methods", n, 2)
 }
